@@ -164,6 +164,7 @@ def run_path(unit, lib, prefix, skip):
     c, case = unit.c, unit.case
     run = Run(unit, unit.registry, lib, prefix, skip)
     env = {}
+    run.cur_env = env
     if unit.node is None:
         names = [nm for nm in case.params if not nm.startswith('_')]
     else:
